@@ -47,6 +47,7 @@ def publish_before_ack(ctx, p):
                     det = 'copy_to_overlay at %s tags overlay entries with an id unrelated to Commit.id' % cr.loc(s)
         ctx.ob(p + 'd commit-id-is-the-published-tag', 'K4-provenance', cr.path,
                'the id stored in the queued Commit is the record_id passed to copy_to_overlay (so clean_overlay(commit.id) removes exactly its entries)', ok, det)
+    set_always_mirrored(ctx, p + 'g')
     cc = ctx.body('db::DbInner::commit_changes')
     if cc:
         lib.must_pass(ctx, p + 'e commit_changes-reaches-commit_raw', cc, cc.call_sites('db::DbInner::commit_raw'),
@@ -333,3 +334,25 @@ def replay_order(ctx, p):
             lib.cond_guarded(ctx, p + 'k only-empty-logs-deleted-at-open', lo, s, 'a log file is deleted at open only depending on open_log_file reporting no first record', calls=['log::Log::open_log_file'])
 
 
+
+
+def set_always_mirrored(ctx, p):
+    """every Set of a transaction is mirrored in the commit overlay tagged with this commit's id
+    (an entry left with an older tag is removed when the older commit is processed)."""
+    F = ctx.F
+    for fn, fld, ins in (('db::IndexedChangeSet::copy_to_overlay', '.IndexedChangeSet.changes', ['re:HashMap.*::insert$']),
+                         ('btree::commit_overlay::BTreeChangeSet::copy_to_overlay', '.BTreeChangeSet.changes', ['re:BTreeMap.*::insert$'])):
+        b = ctx.body(fn)
+        if not b:
+            continue
+        loops = lib.for_loops_over(b, fld)
+        sites = [bi for bi, t in b.calls() if bi in b.normal_blocks() and call_matches(t, ins)]
+        ok = False
+        det = 'no loop over %s' % fld
+        for lp in loops:
+            found, w = lib.loop_arm_must_call(b, lp, 'Operation<', 0, sites)
+            if found:
+                ok = w is None
+                det = '' if ok else 'a Set operation can be skipped: ' + lib.short_path(b, w)
+        ctx.ob(p + ' set-always-published %s' % fn, 'K2-loop-order', fn,
+               'on the Set arm every iteration inserts the key into the commit overlay under the current commit id (no skip for keys already present)', ok, det)
